@@ -15,13 +15,19 @@ inline std::string c13_case(const std::vector<std::string> &cat, const std::stri
   // every second case initialises the handle of the case beforehand (with another solution), so that the call under test re-uses a live handle:
   // a rejected name must leave that registration alone as well
   bool reuse = (handle.size() + s.size()) % 2 == 0; if (reuse) cls["handle_already_registered"]++;
+  // one case in three has a live handle spelled exactly like the string under test: the string only picks the catalogue entry, it must not reach
+  // any handle of that spelling (handles are used verbatim and are a separate name space)
+  bool twin = !reuse ? (handle.size() + 2 * s.size()) % 3 == 0 && s != handle && s != "pre-existing" : false; if (twin) cls["live_handle_spelled_like_the_name"]++;
   { Quiet q; masa_verif_reset(); if (prec) masa_init<long double>("pre-existing", cat[3]); else masa_init<double>("pre-existing", cat[3]);
+    if (twin) { if (prec) masa_init<long double>(s, cat[7]); else masa_init<double>(s, cat[7]); }
     if (reuse) { if (prec) masa_init<long double>(handle, cat[5]); else masa_init<double>(handle, cat[5]); } }
   std::string before = listing(prec); std::string n = norm(s); bool known = std::find(cat.begin(), cat.end(), n) != cat.end();
+  auto twin_ok = [&]() -> std::string { if (!twin) return ""; std::string nm; bool t2 = false; { Quiet q; try { if (prec) { masa_select_mms<long double>(s); masa_get_name<long double>(&nm); } else { masa_select_mms<double>(s); masa_get_name<double>(&nm); } } catch (int) { t2 = true; } }
+    if (t2 || nm != cat[7]) return "masa_init(h, \"" + show(s) + "\") damaged the live handle that happens to be spelled like that string (it " + (t2 ? std::string("can no longer be selected") : "now reports '" + show(nm) + "'") + ")"; return ""; };
   bool threw = false; int code = 0; std::string out; { Quiet q; try { if (prec) masa_init<long double>(handle, s); else masa_init<double>(handle, s); } catch (int e) { threw = true; code = e; } out = q.str(); }
   if (known) { cls["resolves"]++; if (threw) return "masa_init(h, \"" + show(s) + "\") is a fatal error although the string normalises to the catalogue name " + n;
     std::string nm; { Quiet q; if (prec) masa_get_name<long double>(&nm); else masa_get_name<double>(&nm); } if (nm != n) return "masa_init(h, \"" + show(s) + "\") selected '" + nm + "' instead of " + n;
-    std::string after = listing(prec); if (after.find(handle + " : " + n + "\n") == std::string::npos) return "handle '" + show(handle) + "' is not listed verbatim after masa_init"; return ""; }
+    std::string after = listing(prec); if (after.find(handle + " : " + n + "\n") == std::string::npos) return "handle '" + show(handle) + "' is not listed verbatim after masa_init"; return twin_ok(); }
   cls["rejects"]++;
   if (!threw) { std::string nm; { Quiet q; if (prec) masa_get_name<long double>(&nm); else masa_get_name<double>(&nm); } return "masa_init(h, \"" + show(s) + "\") succeeded (selected " + nm + ") although the string does not normalise to a catalogue name"; }
   if (code != 1) return "fatal error of masa_init threw " + std::to_string(code);
@@ -29,7 +35,7 @@ inline std::string c13_case(const std::vector<std::string> &cat, const std::stri
   if (listing(prec) != before) return "a rejected masa_init(h, \"" + show(s) + "\") changed the registry";
   if (reuse) { std::string nm; bool t2 = false; { Quiet q; try { if (prec) { masa_select_mms<long double>(handle); masa_get_name<long double>(&nm); } else { masa_select_mms<double>(handle); masa_get_name<double>(&nm); } } catch (int) { t2 = true; } }
     if (t2 || nm != cat[5]) return "after a rejected masa_init(h, \"" + show(s) + "\") the solution previously registered under h is no longer reachable"; }
-  return ""; }
+  return twin_ok(); }
 
 struct C13Case { std::string handle, s; int prec; };
 static std::string c13_text(const C13Case &c) { std::string t = "verif-c13case 1\nprec " + std::to_string(c.prec) + "\nhandle " + std::to_string(c.handle.size()); for (unsigned char ch : c.handle) t += " " + std::to_string((int)ch); t += "\nname " + std::to_string(c.s.size()); for (unsigned char ch : c.s) t += " " + std::to_string((int)ch); return t + "\n# name as text: " + show(c.s) + "\n"; }
